@@ -34,6 +34,10 @@
 (*                ops   the codec's calls on the stream, <<kind, n>>:      *)
 (*                      "r" read(n), "s" seekg(n), "e" eof()               *)
 (*   expected   ids a complete read delivers, in order                     *)
+(*   touch      "before": the object's type is inspected before the        *)
+(*              hand-over to the queue (the code since the fix of F5);     *)
+(*              "after": the defective order, kept so that TLC can show    *)
+(*              the violation of NoStaleAccess                             *)
 (***************************************************************************)
 EXTENDS UFOps, OQOps, SequencesExt, FiniteSets, TLC, Json
 
@@ -53,14 +57,15 @@ VARIABLES cfg,
           opi,                  \* U: next codec operation
           fix,                  \* U: seek-back after the codec (ohb.objectSize - calculateObjectSize())
           nread, delivered,     \* App: read() calls done, results in order (0 = nullptr)
+          aret,                 \* App: result of a read() that has not returned yet (cfg.post), else -1
           freed,                \* ghost: ids the application has deleted
           stale,                \* ghost: U touched an object after the application freed it
           act                   \* ghost: thread of the last step
 
 vars == <<cfg, uf, oq, uRun, cRun, cfOpen, cfBad, ci, cur, ctmp, utmp, objCount, uncSize,
-          pc, blk, tmp4, d, opi, fix, nread, delivered, freed, stale, act>>
+          pc, blk, tmp4, d, opi, fix, nread, delivered, aret, freed, stale, act>>
 View == <<cfg, uf, oq, uRun, cRun, cfOpen, cfBad, ci, cur, ctmp, utmp, objCount, uncSize,
-          pc, blk, tmp4, d, opi, fix, nread, delivered, freed, stale>>
+          pc, blk, tmp4, d, opi, fix, nread, delivered, aret, freed, stale>>
 
 Threads == {"A", "U", "C"}
 StatSize == 144           \* FileStatistics::statisticsSize
@@ -70,14 +75,14 @@ Init == /\ cfg \in Configs
         /\ uf = UFSetBuf(UFInit, cfg.B)
         /\ oq = OQSetCap(OQInit, cfg.Q)
         /\ uRun = FALSE /\ cRun = FALSE
-        /\ cfOpen = TRUE /\ cfBad = FALSE
+        /\ cfOpen = FALSE /\ cfBad = FALSE
         /\ ci = 0 /\ cur = 0 /\ ctmp = 0 /\ utmp = 0
-        /\ objCount = 0 /\ uncSize = StatSize
+        /\ objCount = 0 /\ uncSize = 0
         /\ pc = [t \in Threads |-> IF t = "A" THEN "start" ELSE "none"]
         /\ blk = [t \in Threads |-> ""]
         /\ tmp4 = <<"x", "x", "x", "x">>
         /\ d = 0 /\ opi = 0 /\ fix = 0
-        /\ nread = 0 /\ delivered = <<>>
+        /\ nread = 0 /\ delivered = <<>> /\ aret = -1
         /\ freed = {} /\ stale = FALSE
         /\ act = [op |-> "init", arg |-> cfg.name]
 
@@ -90,7 +95,7 @@ Block(t, cv) == blk' = [blk EXCEPT ![t] = cv]
 
 UVars == <<tmp4, d, opi, fix, utmp>>
 CVars == <<ci, cur, ctmp, cfBad>>
-AVars == <<nread, delivered, freed>>
+AVars == <<nread, delivered, aret, freed>>
 Flags == <<uRun, cRun>>
 Stats == <<objCount, uncSize>>
 
@@ -103,8 +108,10 @@ ClsAt(x) == IF x >= 0 /\ x < Len(cfg.cls) THEN cfg.cls[x + 1] ELSE "x"
 (* ------------------------------------------------------------------ *)
 (* Application thread                                                   *)
 (* ------------------------------------------------------------------ *)
+(* open(): fstream opened, statistics header read (currentUncompressedFileSize += statisticsSize) *)
 A_Start == /\ Ready("A", "start") /\ Step("A") /\ Goto("A", "setU")
-           /\ UNCHANGED <<uf, oq, Flags, cfOpen, CVars, Stats, blk, UVars, AVars, stale>>
+           /\ cfOpen' = TRUE /\ uncSize' = uncSize + StatSize
+           /\ UNCHANGED <<uf, oq, Flags, CVars, objCount, blk, UVars, AVars, stale>>
 A_SetU == /\ Ready("A", "setU") /\ Step("A")
           /\ uRun' = TRUE /\ Goto("A", "setC")
           /\ UNCHANGED <<uf, oq, cRun, cfOpen, CVars, Stats, blk, UVars, AVars, stale>>
@@ -119,21 +126,25 @@ A_Read == /\ Ready("A", "read") /\ Step("A")
                THEN LET ret == OQReadRet(oq) IN
                     /\ oq' = OQRead(oq)
                     /\ blk' = Notify(blk, {"oqg"})
-                    /\ delivered' = Append(delivered, ret)
-                    /\ nread' = nread + 1
                     /\ IF cfg.post
-                         THEN Goto("A", "afterRead") /\ UNCHANGED freed
-                         ELSE /\ Goto("A", AfterRead(ret, nread + 1))
+                         THEN /\ aret' = ret /\ Goto("A", "afterRead")
+                              /\ UNCHANGED <<nread, delivered, freed>>
+                         ELSE /\ delivered' = Append(delivered, ret)
+                              /\ nread' = nread + 1
+                              /\ Goto("A", AfterRead(ret, nread + 1))
                               /\ freed' = IF ret = 0 THEN freed ELSE freed \cup {ret}
+                              /\ UNCHANGED aret
                ELSE /\ Block("A", "oqp")
                     /\ UNCHANGED <<oq, pc, AVars>>
           /\ UNCHANGED <<uf, Flags, cfOpen, CVars, Stats, UVars, stale>>
-(* with cfg.post: the object is returned and deleted in a separate step *)
+(* with cfg.post: read() returns, the application records and deletes the object in a step of its own *)
 A_AfterRead == /\ Ready("A", "afterRead") /\ Step("A")
-               /\ LET ret == delivered[Len(delivered)] IN
-                    /\ Goto("A", AfterRead(ret, nread))
-                    /\ freed' = IF ret = 0 THEN freed ELSE freed \cup {ret}
-               /\ UNCHANGED <<uf, oq, Flags, cfOpen, CVars, Stats, blk, UVars, nread, delivered, stale>>
+               /\ delivered' = Append(delivered, aret)
+               /\ nread' = nread + 1
+               /\ Goto("A", AfterRead(aret, nread + 1))
+               /\ freed' = IF aret = 0 THEN freed ELSE freed \cup {aret}
+               /\ aret' = -1
+               /\ UNCHANGED <<uf, oq, Flags, cfOpen, CVars, Stats, blk, UVars, stale>>
 (* close(), read mode *)
 A_ClrC == /\ Ready("A", "clrC") /\ Step("A")
           /\ cRun' = FALSE /\ cfOpen' = FALSE          \* flag store, then m_compressedFile.close()
@@ -252,13 +263,14 @@ U_Push == /\ Ready("U", "push") /\ Step("U")
                     /\ blk' = Notify(blk, {"oqp"})
                     /\ IF cfg.post THEN Goto("U", "afterPush") /\ UNCHANGED stale
                        ELSE /\ Goto("U", AfterPush)
-                            /\ stale' = (stale \/ Desc(d).id \in freed)   \* obj->objectType read
+                            /\ stale' = (stale \/ (cfg.touch = "after" /\ Desc(d).id \in freed))
                ELSE /\ Block("U", "oqg")
                     /\ UNCHANGED <<oq, pc, stale>>
           /\ UNCHANGED <<uf, Flags, cfOpen, CVars, Stats, UVars, AVars>>
-(* with cfg.post: the read of obj->objectType after the hand-over is a step of its own *)
+(* with cfg.post: whatever U does between the hand-over and its next scheduling point is a step of
+   its own; with touch = "after" that includes reading obj->objectType *)
 U_AfterPush == /\ Ready("U", "afterPush") /\ Step("U")
-               /\ stale' = (stale \/ Desc(d).id \in freed)
+               /\ stale' = (stale \/ (cfg.touch = "after" /\ Desc(d).id \in freed))
                /\ Goto("U", AfterPush)
                /\ UNCHANGED <<uf, oq, Flags, cfOpen, CVars, Stats, blk, UVars, AVars>>
 U_Count == /\ Ready("U", "count") /\ Step("U")
@@ -370,7 +382,8 @@ EofOnlyAfterLast == (delivered # <<>> /\ Last(delivered) = 0 /\ ~oq.abort)
                        => NonNull(delivered) = cfg.expected
 DoneDeliveredAll == (AllDone /\ FullRead) => NonNull(delivered) = cfg.expected
 (* queue + delivered together are always a prefix: nothing is reordered or duplicated inside the library *)
-PipelineOrder == IsPrefix(NonNull(delivered) \o oq.q, cfg.expected)
+InFlight == IF aret > 0 THEN <<aret>> ELSE <<>>
+PipelineOrder == IsPrefix(NonNull(delivered) \o InFlight \o oq.q, cfg.expected)
 
 (* C05: the reader's running counters equal the header statistics of a complete file *)
 SumUsize == LET RECURSIVE S(_) S(i) == IF i = 0 THEN 0 ELSE ContHdr + cfg.conts[i].usize + S(i - 1) IN S(NConts)
